@@ -185,17 +185,13 @@ func (w *world) doWrite(p vhlib.ParsedLine) {
 	before := w.revNum(c)
 	err, panicked, msg := w.locked2(c, func(t2 *crhp2.Transport, rev *crhp2.ContractRevision) error {
 		if rev.Revision.ValidRenterPayout().Cmp(pay) < 0 || rev.Revision.MissedHostPayout().Cmp(burn) < 0 {
-			return w.rawWrite(t2, rev, acts, pay, burn)
+			// the payouts of such a proposal cannot be written down without going below zero; the
+			// model refuses it as well (transfer > renter payout / burn > host missed payout)
+			return errors.New("harness: insufficient funds for the proposed transfer")
 		}
 		return writeNoProof(t2, renterKey(w.ckey[c]), rev, acts, pay, burn, proof)
 	})
 	w.finish2("write", op, c, before, err, panicked, msg)
-}
-
-// rawWrite sends a write whose payouts cannot be built by plain subtraction (the renter does not
-// have the funds): it is expected to be rejected; nothing is sent.
-func (w *world) rawWrite(t2 *crhp2.Transport, rev *crhp2.ContractRevision, acts []crhp2.RPCWriteAction, pay, burn types.Currency) error {
-	return errors.New("harness: insufficient renter funds for the proposed transfer")
 }
 
 // writeNoProof is proto2.RPCWrite with an optional Merkle proof request.
@@ -448,7 +444,8 @@ func fromCost(c crhp3.ResourceCost) usage6 {
 //
 //	paid=<0|1>   the contract payment was committed (revision number advanced)
 //	spent=[…]    the usage the host is expected to have debited from the account for this outcome
-//	order=[…]    the funding rows of the account before the debit (oracle for the attribution order)
+//	order=[…]    the funding rows of the account before the RPC (oracle for the attribution order; a
+//	             deposit made by the RPC's own contract payment is appended by the model's upsert)
 func (w *world) finishPaid(kind, op string, pm payment, before uint64, order string, spent usage6, outcome string, extra string) {
 	paid := 0
 	if pm.byContract && w.revNum(pm.c) != before {
@@ -523,17 +520,8 @@ func (w *world) doPT(p vhlib.ParsedLine) {
 	if panicked {
 		outcome = "panic:" + msg
 	}
-	if pm.byContract {
-		order = w.orderAfterPay(pm, before, order)
-	}
 	w.finishPaid("pt", op, pm, before, order, spent, outcome, "")
 }
-
-// orderAfterPay: when the payment was by contract the deposit precedes the debit, so the funding
-// rows the debit sees include the refund deposit.  The oracle is re-read only when no debit
-// happened (then it is irrelevant); otherwise the pre-payment order plus the deposit is what the
-// model reconstructs itself (upsert), so the pre-payment rows are reported.
-func (w *world) orderAfterPay(pm payment, before uint64, order string) string { return order }
 
 // fund c= a= amt=<deposit>   (RPCFundAccount: transfers FundAccountCost + amt)
 func (w *world) doFund(p vhlib.ParsedLine) {
@@ -678,7 +666,7 @@ type progBuilder struct {
 	fc     int // contract the program runs on (-1: none)
 	data   []byte
 	instrs []crhp3.Instruction
-	costs  []usage6 // usage charged by each instruction (payment precedes the action)
+	costs  []usage6             // usage charged by each instruction (payment precedes the action)
 	rcs    []crhp3.ResourceCost // the ResourceCost the executor adds to pe.cost for each instruction
 	final  bool
 	descr  []string
